@@ -17,14 +17,16 @@ def run(rep):
         "Imsaak = Fajr recomputed at angle Fajr+Imsaak (get_imsaak's control flow is checked under C12); the 0.5 deg 'true instantaneous "
         "altitude' clause depends on the ephemeris and is outside the claim"]
     res = base.run_obligations(rep, [(kernels.fajr_isha, 60), (kernels.fajr_isha_monotone, 60), (policy.imsaak, None), (jd.jd_formula, (1600, 2399))])
-    if any(x["cands"] for x in res if x["name"].startswith("get_imsaak")):
+    if any((x["cands"] or x["inconclusive"]) for x in res if x["name"].startswith("get_imsaak")):
         from . import policyprop as pp
-        if not pp.imsaak_grid(rep):
+        if not pp.imsaak_grid(rep) and any(x["cands"] for x in res if x["name"].startswith("get_imsaak")):
             rep.inconclusive.append("get_imsaak counterexample not reproduced through the public API")
     if any(x["cands"] for x in res if x["name"].startswith("JulianDay")):
         from . import c01
         c01.confirm_jd(rep, res)
     kp.confirm(rep, [x for x in res if x["name"].startswith("get_fajr")], WANT, 60)
+    from . import ephsweep
+    ephsweep.sweep(rep, {"twilight"})
     rep.samples = [{"obligation": o["name"], "status": o["status"], "paths": o.get("paths"), "queries": o.get("queries")} for o in rep.obligations]
 
 
